@@ -82,7 +82,7 @@ var topicsParse = []topic{
 }
 
 func init() {
-	for _, t := range append(append(append([]topic{}, topicsParse...), topicsLend...), topicsOpq...) { // code_lend.go, code_opq.go: their topics come last
+	for _, t := range append(append(append(append([]topic{}, topicsParse...), topicsLend...), topicsOpq...), topicsOsap...) { // code_lend.go, code_opq.go: their topics come last
 		topics5 = append(topics5, t)
 		part3Topics[t.name] = true
 		part4Topics[t.name] = true
